@@ -261,9 +261,7 @@ int rtosc_arg_vals_cmp_single(const rtosc_arg_val_t* _lhs,
             {
                 // both equal until here
                 // the string that ends here is lexicographically smaller
-                rval = (lbs > rbs)
-                       ? _lhs->val.b.data[minlen]
-                       : -_rhs->val.b.data[minlen];
+                rval = (lbs > rbs) ? 1 : -1;
             }
 
             break;
